@@ -34,6 +34,9 @@ type Prog struct {
 	ModFuncs []*ssa.Function         // every function (incl. anonymous) whose package is in the module
 	AllFuncs map[*ssa.Function]bool
 	cg       *callgraph.Graph
+
+	fieldStores     map[string][]*ssa.Store
+	structClobbered map[string]bool
 }
 
 // GoBin is the toolchain that can type-check /repo (go.mod asks for go >= 1.25.6).
